@@ -277,6 +277,9 @@ theorem nq_handleDelayed {N : Nat} {s : State} (h : NQ N s) (now : Nat) : NQ N (
 theorem nq_handleInactivity {N : Nat} {s : State} (h : NQ N s) (now : Nat) : NQ N (handleInactivity s now).1 := by
   inv_auto nq_frame 4 []
 
+theorem nq_handleAckTimer {N : Nat} {s : State} (h : NQ N s) (now : Nat) (b : Bool) : NQ N (handleAckTimer s now b) := by
+  inv_auto nq_frame 4 []
+
 theorem nq_handleTimeout {N : Nat} {s : State} (h : NQ N s) (now : Nat) : NQ N (handleTimeout s now) := by
   have h1 : NQ N (handleInactivity (handleDelayed s now) now).1 := nq_handleInactivity (nq_handleDelayed h now) now
   simp only [handleTimeout]
@@ -285,6 +288,7 @@ theorem nq_handleTimeout {N : Nat} {s : State} (h : NQ N s) (now : Nat) : NQ N (
     | exact h
     | exact h1
     | exact nq_setAll h1 rfl (getAllNaks_congr rfl rfl rfl) rfl rfl
+    | (apply nq_handleAckTimer; inv_auto nq_frame 4 [])
     | inv_auto nq_frame 4 []
 
 /-! ### the NAK PDU -/
@@ -340,7 +344,7 @@ theorem le_listMax (l : List Nat) (d : Nat) : ∀ y ∈ l, y ≤ listMax l d := 
 /-- a well-formed NAK for a file of `N` bytes under configuration `cfg` -/
 def NakOk (N : Nat) (cfg : Config) (nk : Nak) : Prop :=
   (∀ r ∈ nk.requests, ReqOk N r ∧ nk.scopeStart ≤ r.1 ∧ r.2 ≤ nk.scopeEnd) ∧
-  (Payload.nak nk).len cfg.fss ≤ cfg.seg + 1
+  (nk.requests.length ≤ 1 ∨ (Payload.nak nk).len cfg.fss ≤ cfg.seg + 1)
 
 theorem nak_sendNaks {N : Nat} {s : State} (h : NQ N s) (hs : s.sent = none) (now : Nat) :
     ∀ p nk, (sendNaks s now).sent = some p → p.payload = .nak nk → NakOk N s.cfg nk := by
@@ -367,16 +371,23 @@ theorem nak_sendNaks {N : Nat} {s : State} (h : NQ N s) (hs : s.sent = none) (no
         · exact le_listMax _ _ _ (List.mem_map_of_mem (f := (·.2)) hr)
       · simp only [Payload.len, Nak.len, List.length_take]
         rw [← hc1]
-        simp only [maxNakNum] at hm
-        split at hm
-        · cases hm
-        · cases hm
-          rename_i hge
-          have hf : 0 < 2 * fssLen t.cfg.fss := by cases t.cfg.fss <;> simp [fssLen]
-          have := Nat.div_mul_le_self (t.cfg.seg - 2 * fssLen t.cfg.fss) (2 * fssLen t.cfg.fss)
-          have hmin : min (min t.naks.length ((t.cfg.seg - 2 * fssLen t.cfg.fss) / (2 * fssLen t.cfg.fss))) t.naks.length
-              ≤ (t.cfg.seg - 2 * fssLen t.cfg.fss) / (2 * fssLen t.cfg.fss) := by omega
-          have := Nat.mul_le_mul_right (2 * fssLen t.cfg.fss) hmin
+        simp only [maxNakNum, Option.some.injEq] at hm
+        subst hm
+        have hf : 0 < 2 * fssLen t.cfg.fss := by cases t.cfg.fss <;> simp [fssLen]
+        generalize hq : (t.cfg.seg - 2 * fssLen t.cfg.fss) / (2 * fssLen t.cfg.fss) = q
+        by_cases hq0 : q = 0
+        · left; omega
+        · right
+          have hdm := Nat.div_mul_le_self (t.cfg.seg - 2 * fssLen t.cfg.fss) (2 * fssLen t.cfg.fss)
+          rw [hq] at hdm
+          have hmin : min (min t.naks.length (max 1 q)) t.naks.length ≤ q := by omega
+          have hmul := Nat.mul_le_mul_right (2 * fssLen t.cfg.fss) hmin
+          have hq1 : 2 * fssLen t.cfg.fss ≤ q * (2 * fssLen t.cfg.fss) := by
+            have : 1 ≤ q := by omega
+            simpa using Nat.mul_le_mul_right (2 * fssLen t.cfg.fss) this
+          generalize 2 * fssLen t.cfg.fss = F at hf hdm hmul hq1 ⊢
+          generalize min (min t.naks.length (max 1 q)) t.naks.length * F = P at hmul ⊢
+          generalize q * F = Q at hdm hmul hq1
           omega
 
 theorem nak_sendNaks' {N : Nat} {s : State} (now : Nat) (p : Pdu) (nk : Nak) (hp : (sendNaks s now).sent = some p)
@@ -675,13 +686,25 @@ theorem dq_handleTimeout {s : State} (h : DQ s) (now : Nat) : DQ (handleTimeout 
     simp only [handleAckTimer]
     repeat' split
     all_goals inv_auto dq_frame 7 [dq_abandon, dq_handleFault]
+  have hack2 : ∀ c, DQ (handleAckTimer { (handleInactivity s now).1 with timer :=
+      { (handleInactivity s now).1.timer with nak := (handleInactivity s now).1.timer.nak.pause now } } now c) := by
+    intro c
+    have hp : DQ { (handleInactivity s now).1 with timer :=
+        { (handleInactivity s now).1.timer with nak := (handleInactivity s now).1.timer.nak.pause now } } :=
+      dq_pause hi now rfl rfl rfl rfl rfl rfl rfl
+    generalize ({ (handleInactivity s now).1 with timer :=
+        { (handleInactivity s now).1.timer with nak := (handleInactivity s now).1.timer.nak.pause now } } : State) = t at hp
+    simp only [handleAckTimer]
+    repeat' split
+    all_goals inv_auto dq_frame 7 [dq_abandon, dq_handleFault]
+  dsimp only at hack2
   simp only [handleTimeout, handleDelayed_nil h.delayed, idle_timeoutOccurred hidle]
   repeat' split
   all_goals first
     | exact h
     | exact hi
-    | exact hack _
-    | (rename_i hh; cases hh; done)
+    | contradiction
+    | exact hack2 _
     | inv_auto dq_frame 7 []
 
 end Cfdp.Recv
